@@ -23,12 +23,13 @@ type Oblig struct {
 	Hyp  *Term
 	Goal *Term
 	// filled by the discharger
-	Verdict string
-	Solver  string
-	Secs    float64
-	Model   map[string]*big.Int
-	Note    string
-	Mode    string
+	Verdict  string
+	Solver   string
+	Secs     float64
+	Model    map[string]*big.Int
+	Note     string
+	Mode     string
+	Concrete bool // found with every contract switched off: inputs are inputs of the real code
 }
 
 type Ctx struct {
@@ -58,6 +59,8 @@ type Ctx struct {
 	curContract []*contractFrame
 	asmFuncs    map[string]*AsmFunc
 	cases       map[string]int
+	maxInstr    int64
+	nInstr      int64
 }
 
 type contractFrame struct {
@@ -366,20 +369,19 @@ func (c *Ctx) callFunction(fn *ssa.Function, args []Value, bind []Value, st *Sta
 	}
 	if fn.Pkg != nil && fn.Pkg.Pkg.Path() == verifPkgPath {
 		switch fn.Name() {
-		case "Call":
-			return c.verifCall(st, site)
-		case "RetInt", "RetU64", "RetI64":
-			k, _ := concreteInt(args[0])
-			return []Outcome{{st, c.verifRet(st, k, BV(64), nil)}}
-		case "RetU32":
-			k, _ := concreteInt(args[0])
-			return []Outcome{{st, c.verifRet(st, k, BV(32), nil)}}
-		case "RetU8":
-			k, _ := concreteInt(args[0])
-			return []Outcome{{st, c.verifRet(st, k, BV(8), nil)}}
-		case "RetBool":
-			k, _ := concreteInt(args[0])
-			return []Outcome{{st, c.verifRet(st, k, BoolSort, nil)}}
+		case "Real":
+			cf := c.topContract()
+			return []Outcome{{st, BoolC(cf != nil && cf.prove)}}
+		case "FreshInt", "FreshU64", "FreshI64":
+			return []Outcome{{st, Var(c.freshName("fresh"), BV(64))}}
+		case "FreshU32":
+			return []Outcome{{st, Var(c.freshName("fresh"), BV(32))}}
+		case "FreshU8":
+			return []Outcome{{st, Var(c.freshName("fresh"), BV(8))}}
+		case "FreshBool":
+			return []Outcome{{st, Var(c.freshName("fresh"), BoolSort)}}
+		case "FreshIntG":
+			return []Outcome{{st, Var(c.freshName("freshg"), IntSort)}}
 		case "Case":
 			v, ok := c.cases[args[0].(string)]
 			if !ok {
@@ -405,8 +407,8 @@ func (c *Ctx) callFunction(fn *ssa.Function, args []Value, bind []Value, st *Sta
 	if c.ctCheck && c.vartimeRe != nil && c.vartimeRe.MatchString(name) {
 		c.checkVartimeCall(st, fn, args, site)
 	}
-	if c.provingReal == fn && !c.inContractFor(fn) && len(c.curContract) == 0 {
-		return c.runContract(c.proving, fn, args, st, site, true)
+	if c.proving == fn && len(c.curContract) == 0 {
+		return c.runContract(fn, c.provingReal, args, st, site, true)
 	}
 	if rep, ok := c.replace[name]; ok && !c.inContractFor(fn) {
 		return c.runContract(rep, fn, args, st, site, false)
@@ -714,6 +716,10 @@ type floatV float64
 
 func (c *Ctx) runBlock(fr *frame, p *Path, blk *ssa.BasicBlock, start int) {
 	st := p.st
+	c.nInstr += int64(len(blk.Instrs) - start)
+	if c.maxInstr > 0 && c.nInstr > c.maxInstr {
+		fail("instruction budget exceeded")
+	}
 	for i := start; i < len(blk.Instrs); i++ {
 		switch in := blk.Instrs[i].(type) {
 		case *ssa.Phi, *ssa.DebugRef:
